@@ -274,9 +274,20 @@ def from_sexpr(prog):
             e1 = None
             if not (isinstance(strip(v), tuple) and strip(v)[0] == "agg"):
                 v = canon.inline_top(prog, te, v)      # the literal may be built by a private helper
+            if not (isinstance(strip(v), tuple) and strip(v)[0] == "agg"):
+                from .base import expand               # ... or by a local closure shared with the Var arm
+                for _ in range(3):
+                    e_ = expand(v)
+                    if e_ is None:
+                        break
+                    v = strip(e_)
+                    if v[0] == "agg":
+                        break
+                if not (isinstance(v, tuple) and v and v[0] == "agg"):
+                    e1 = "?Not(Var) is built by %s, which is not read here" % show(v)[:50]
             ok = (isinstance(v, tuple) and v[0] == "agg" and v[3] == "Literal" and len(v[4]) == 2
                   and match(K(0), v[4][1]) is None)
-            if not ok:
+            if not ok and e1 is None:
                 e1 = "Not(Var) must become a negative literal, found %s" % show(v)
             else:
                 idx = strip(v[4][0])
